@@ -29,6 +29,7 @@ RULE_TEXT = (
     "AST constant on any statement-kind trace. C19.a is evaluated for every instance configuration x catalog state in "
     "which connect creates something shared."
     " C19.d CREATE statements issued on fakesnow's own initiative outside the connect lock are IF NOT EXISTS / OR REPLACE."
+    " C19.c also: no module-level instance of a stateful class (parser, tokenizer, generator, engine connection)."
 )
 TRUSTED = ["CPython ast", "threading.Lock/RLock used in a with statement is mutual exclusion", "DuckDB cursors are safe to use from different threads"]
 
